@@ -94,6 +94,31 @@ impl Property for C01 {
         }
         Ok(())
     }
+    fn extra(&self, tier: Tier, seed: u64, st: &mut Stats) -> Result<(), (Failure, Value)> {
+        if tier == Tier::Thorough {
+            let runs = std::env::var("XSGV_FUZZ_RUNS").ok().and_then(|s| s.parse().ok()).unwrap_or(125_000u64);
+            let seeds: Vec<Vec<u8>> = crate::runner::gen_tapes(self, seed ^ 0x7a9e, 200)
+                .into_iter()
+                .map(|t| {
+                    let n = t.a.len().min(1023);
+                    let mut v = vec![(n >> 8) as u8, (n & 255) as u8];
+                    v.extend_from_slice(&t.a[..n]);
+                    v.extend_from_slice(&t.b);
+                    v
+                })
+                .collect();
+            let c = crate::fuzzrun::Campaign { target: "fz_tape", runs_per_worker: runs, workers: 16, seed: seed ^ 0x01, max_len: 2048, seeds };
+            crate::fuzzrun::campaign_for("C01", &c, st)?;
+        }
+        Ok(())
+    }
+    fn replay_custom(&self, payload: &Value) -> Result<(), Failure> {
+        match crate::fuzzrun::replay(payload) {
+            // the tape target runs the oracles of several properties; only this property's verdict counts here
+            Some(Err(f)) if f.msg.starts_with("C01:") => Err(f),
+            _ => Ok(()),
+        }
+    }
     fn rule(&self) -> String {
         "tape-decoded sequences of 1..5 well-formed documents (all name classes, full surface variation, 1 in 8 wide); every source document is walked against the struct tree read from the rendering (attributes/children bound, required fields present, non-Vec fields at most once, character data only where a text field or String exists). Non-trivial = the sequence forces at least one Option or Vec decision (an attribute or child absent from some occurrence, or a repeated child); distinct by hash of the structural documents.".into()
     }
